@@ -131,10 +131,82 @@ def _ret_kind(body: Body, res: Resolver, d):
     return "other"
 
 
+def _bool_infeasible(body: Body, src, dst):
+    """Edges that cannot be taken after the edge src->dst, by constant propagation of Boolean locals: the edge fixes the
+    value of the switch operand of `src`; `x = const bool`, `x = copy y` propagate; a two-way switch on a known local has
+    one feasible successor.  Joins intersect.  (`let same = a == b && c == d; if same && .. { .. } else { false }`: on the
+    a != b edge `same` is false, so only the else branch follows.)"""
+    t = body.blocks[src]["term"]
+    env0 = {}
+    if t["k"] == "switch" and t["o"]["k"] in ("copy", "move") and not t["o"]["p"]["pr"] and len(t["targets"]) == 1 and t["targets"][0][0] == "0" \
+            and body.local_ty(t["o"]["p"]["l"]) == "bool" and t["targets"][0][1] != t["otherwise"]:
+        env0[t["o"]["p"]["l"]] = (dst == t["otherwise"])
+    if not env0:
+        return frozenset()
+    state = {dst: dict(env0)}
+    work = [dst]
+    infeasible = set()
+    feasible = set()
+    guard = 0
+    while work and guard < 5000:
+        guard += 1
+        bb = work.pop()
+        blk = body.blocks[bb]
+        if blk["cleanup"]:
+            continue
+        env = dict(state[bb])
+        for st in blk["stmts"]:
+            if st["k"] != "assign":
+                continue
+            l = st["p"]["l"]
+            if st["p"]["pr"]:
+                env.pop(l, None)
+                continue
+            r, val = st["r"], None
+            if r["k"] == "use":
+                o = r["o"]
+                if o["k"] == "const" and o.get("ty") == "bool":
+                    txt = str(o).lower()
+                    val = False if "false" in txt else (True if "true" in txt else None)
+                elif o["k"] in ("copy", "move") and not o["p"]["pr"] and o["p"]["l"] in env:
+                    val = env[o["p"]["l"]]
+            elif r["k"] == "un" and r.get("op") == "Not" and r["a"]["k"] in ("copy", "move") and not r["a"]["p"]["pr"] and r["a"]["p"]["l"] in env:
+                val = not env[r["a"]["p"]["l"]]
+            if val is None:
+                env.pop(l, None)
+            else:
+                env[l] = val
+        tt = blk["term"]
+        succs = list(body.succs[bb])
+        if tt["k"] == "call" and tt.get("d") and not tt["d"]["pr"]:
+            env.pop(tt["d"]["l"], None)
+        if tt["k"] == "switch" and tt["o"]["k"] in ("copy", "move") and not tt["o"]["p"]["pr"] and tt["o"]["p"]["l"] in env \
+                and len(tt["targets"]) == 1 and tt["targets"][0][0] == "0":
+            take = tt["otherwise"] if env[tt["o"]["p"]["l"]] else tt["targets"][0][1]
+            for x in succs:
+                if x != take:
+                    infeasible.add((bb, x))
+            succs = [take]
+        for x in succs:
+            feasible.add((bb, x))
+            old = state.get(x)
+            if old is None:
+                state[x] = dict(env)
+                work.append(x)
+            else:
+                met = {k: v for k, v in old.items() if env.get(k, None) is v}
+                if met != old:
+                    state[x] = met
+                    work.append(x)
+    # an edge found infeasible under a stronger (earlier) environment may be feasible after a join weakened it
+    return frozenset(e for e in infeasible if e not in feasible) if guard < 5000 else frozenset()
+
+
 def edge_outcomes(body: Body, src, dst, res: Resolver = None, cut_edges=frozenset()):
     """Set of outcomes on all paths starting with the edge src->dst:
        'panic' (diverges) and/or the kinds of the last definition of _0 at Return."""
     res = res or Resolver(body)
+    cut_edges = frozenset(cut_edges) | _bool_infeasible(body, src, dst)
     # forward dataflow: state[bb] = set of last-def ids of _0 on entry
     ret_defs = {}
     for d in body.defs.get(0, []):
